@@ -360,6 +360,10 @@ def _is_current(pm: ParserModel, fname: str, cfg: CFG, n: Optional[Node], arg: O
     defs = [cfg.nodes[i] for i in rd.get(n.id, {}).get(arg.id, ())]
     if not defs:
         return False, f"`{arg.id}` has no reaching definition"
+    if len(defs) > 1 and _known_not_none(cfg, rd, n, arg.id):
+        # under a dominating `X is not None` test (X not re-bound since) the definitions that store None do not get here
+        live = [d for d in defs if not (d is not cfg.entry and isinstance(getattr(d.stmt, "value", None), ast.Constant) and d.stmt.value.value is None)]
+        defs = live or defs
     for d in defs:
         if d is cfg.entry:
             if arg.id in cur_params.get(fname, set()):
@@ -391,6 +395,38 @@ def _is_current(pm: ParserModel, fname: str, cfg: CFG, n: Optional[Node], arg: O
                 continue
         return False, f"`{arg.id}` may hold `{short(d.stmt)}`, which is not the current block state"
     return True, ""
+
+
+def _known_not_none(cfg: CFG, rd, n: Node, var: str) -> bool:
+    here = set(rd.get(n.id, {}).get(var, ()))
+    for i in cfg.dominators().get(n.id, set()):
+        d = cfg.nodes[i]
+        if d is n or d.kind != "test" or d.cond is None or d.loop is not None:
+            continue
+        c = d.cond
+        neg = False
+        while isinstance(c, ast.UnaryOp) and isinstance(c.op, ast.Not):
+            c = c.operand
+            neg = not neg
+        want = None  # the edge label on which var is not None
+        if isinstance(c, ast.Compare) and len(c.ops) == 1 and isinstance(c.left, ast.Name) and c.left.id == var and isinstance(c.comparators[0], ast.Constant) and c.comparators[0].value is None:
+            if isinstance(c.ops[0], ast.IsNot):
+                want = "T"
+            elif isinstance(c.ops[0], ast.Is):
+                want = "F"
+        elif isinstance(c, ast.Name) and c.id == var:
+            want = "T"
+        if want is None:
+            continue
+        if neg:
+            want = "F" if want == "T" else "T"
+        succ = [s_ for s_, lab in d.succ if lab == want]
+        if len(succ) != 1 or not (succ[0] is n or cfg.dominates(succ[0], n)) or len([p_ for p_, _ in succ[0].pred]) != 1:
+            continue
+        # not re-bound between the test and the use
+        if here <= set(rd.get(d.id, {}).get(var, ())):
+            return True
+    return False
 
 
 def _kind_obligations(ctx: Ctx, rid: str, pm: ParserModel, vm: VisitorModel, ka: KindAnalysis) -> None:
